@@ -237,7 +237,7 @@ def all_families(nws=(1, 2, 3)):
         out += failure_cases(nw)
         out += [request_reply(nw, 1), request_reply(nw, 2), message_during_spawn(nw), send_to_finished(nw), filter_fails(nw),
                 abandoned_await(nw), abandoned_await_msg(nw), fail_multi_worker_select(nw), fail_already_failed_multi(nw),
-                shared_target(nw), shared_target(nw, True)]
+                shared_target(nw), shared_target(nw, True), burst(40, nw), reawait(nw, True), reawait(nw, False)]
         out += heap_cases(nw)
         out += [bin_final_send(nw), bin_final_send_tuple(nw)]
         out += ref_cases(nw)
@@ -375,6 +375,11 @@ def resource_cases(nw=2):
                   [select(1, recv(("int", "res"), acc=[I(1)])), ret(r(1))],
                   [ropen(2), send(1, r(2)), ret(OKE)]], nw=nw, io=True)
     out.append(meta(s, True, True, ["C14"]))
+    # the same shapes against a backend that completes LATER (process_completions at a later environment step)
+    for base in list(out):
+        if base["name"].startswith(("res_owner_awaited", "res_explicit_close", "res_sent", "res_nested_capture_w")):
+            d = dict(base, name=base["name"].replace("_w%d" % nw, "_deferred_w%d" % nw), deferred_io=True, iomodes=["later"])
+            out.append(d)
     # an owner nobody awaits (the known finding: its resource is never closed)
     s = scenario("res_owner_unawaited_w%d" % nw,
                  [[spawn(1, 2), spawn(2, 3), select(3, aw(2)), ret(r(3))],
@@ -481,6 +486,19 @@ def abandoned_await_msg(nw=2):
                [select(1, recv()), ret(c(I(22)))],
                [send(1, c(I(7))), ret(OKE)]]
     return meta(scenario("abandoned_await_msg_w%d" % nw, scripts, nw=nw, maxtick=1), False, True, ["C04", "C05"], large=True)
+
+
+def reawait(nw=2, binary=True):
+    # a select gives up on T (timeout) and the SAME process awaits T again before T has finished: T's worker
+    # has the awaiter on file twice and reports the result once per registration; both reports can reach the
+    # awaiter's worker in one command batch (seeded change C06-2: keeping the first stored report dropped the
+    # second copy after retaining it, so its heap slot was never reclaimed)
+    res = hb(170, 187) if binary else c(I(11))
+    scripts = [[spawn(1, 2), select(2, aw(1), tmo(0)), send(1, c(I(1))), select(3, aw(1)), select(4, aw(1)),
+                ret(t(r(3), r(4)))],
+               [select(1, recv()), ret(t(res, res)) if binary else ret(res)]]
+    return meta(scenario("reawait_%s_w%d" % ("bin" if binary else "int", nw), scripts, nw=nw, maxtick=1), True, True,
+                ["C06", "C05"] if binary else ["C05", "C04"])
 
 
 def bin_final_send(nw=2):
@@ -638,3 +656,13 @@ def shared_target(nw=2, bin_result=False):
                [select(2, aw(1)), ret(t(c(I(0)), r(2)))]]
     return meta(scenario("shared_target%s_w%d" % ("_bin" if bin_result else "", nw), scripts, nw=nw, maxpid=5),
                 True, True, ["C03", "C04", "C06"] if bin_result else ["C03", "C04"], large=True)
+
+
+def burst(n=40, nw=2):
+    # a burst of n messages to one receiver: when the receiver's worker falls behind, its command queue holds
+    # far more commands than any other family produces (seeded change C04-2: a per-step bound on handled commands
+    # dropped the command after the bound).  Too large for exhaustive model checking: real code + monitor only.
+    scripts = [[spawn(1, 2), spawn(2, 3, r(1)), select(3, aw(1)), ret(r(3))],
+               [select(1, recv()) for _ in range(n)] + [ret(r(1))],
+               [send(1, c(I(1000 + i))) for i in range(n)] + [ret(OKE)]]
+    return meta(scenario("burst_%d_w%d" % (n, nw), scripts, nw=nw), True, True, ["C04", "C03"], large=True, no_mc=True)
